@@ -1,6 +1,6 @@
 // hstop: Engine.Stop / Shutdown on real engines (C18).
 //
-// Two kinds of cases:
+// Four kinds of cases:
 //
 //	C <id> sim pollers=<n>      core engine, real *nbio.Conn around virtual descriptors, *gated* callbacks: an OnOpen gate
 //	                            per conn (holds it between addConn's onOpen and its table store) and one OnClose gate
@@ -15,6 +15,14 @@
 //	                            census of goroutines and descriptors before start vs after stop.
 //	  O start | activity conns=<n> dials=<n> backlog=<n> timers=<n> closers=<n> werr=<n> wsup=<n> | stop | shutdown | Q
 //	  R stop=<idle|run|ret> opens=<n> closes=<n>
+//
+//	C <id> lmux maxa=<n>        a real lmux.ListenerMux on a loopback listener (see runLmux)
+//	  O dial | takeA | takeB | dec | stop | Q
+//	  R qa=<n> qb=<n> online=<n> ha=<n> hb=<n> wa=<0|1> wb=<0|1>[ got=<conn|err|closed|blocked>][ ra=<…>][ rb=<…>]
+//
+//	C <id> hsim io=<nb|blk>     a real nbhttp engine under forced schedules: gated OnOpen, gated listener (see runHsim)
+//	  O conn gate=<0|1> | release | peerclose <i> | late | stop | shutdown | wait | Q
+//	  R online=<n> opens=<n> closes=<n> ret=<none|nil|ctx|hang>[ leak=<n>]
 //
 // Direct oracles (implementation only):
 //
@@ -45,6 +53,7 @@ import (
 	"harness/internal/lp"
 
 	"github.com/lesismal/nbio"
+	"github.com/lesismal/nbio/lmux"
 	"github.com/lesismal/nbio/logging"
 	"github.com/lesismal/nbio/nbhttp"
 	"github.com/lesismal/nbio/nbhttp/websocket"
@@ -53,8 +62,78 @@ import (
 
 // ---------------------------------------------------------------------------------- generator
 
+func genLmux(g *lp.Gen, id int) {
+	g.P("C %d lmux maxa=%d", id, g.PickInt(0, 1, 2, 3))
+	n := 3 + g.Intn(12)
+	stopped := false
+	for k := 0; k < n; k++ {
+		switch r := g.Intn(12); {
+		case r < 5 && !stopped:
+			g.P("O dial")
+		case r < 7:
+			g.P("O takeA")
+		case r < 9:
+			g.P("O takeB")
+		case r < 10:
+			g.P("O dec")
+		case r < 11 && !stopped:
+			g.P("O stop")
+			stopped = true
+		default:
+			g.P("Q")
+		}
+	}
+	if !stopped {
+		g.P("O stop")
+	}
+	g.P("O takeA")
+	g.P("O takeB")
+	g.P("Q")
+}
+
+// genHsim: forced schedules on a real nbhttp engine (gated OnOpen, gated listener), see runHsim.
+func genHsim(g *lp.Gen, id int) {
+	g.P("C %d hsim io=%s", id, g.Pick("nb", "blk", "nb"))
+	n := g.Intn(4)
+	conns := 0
+	for k := 0; k < n; k++ {
+		g.P("O conn gate=0")
+		conns++
+		if conns > 1 && g.Intn(3) == 0 {
+			g.P("O peerclose %d", g.Intn(conns))
+		}
+	}
+	gated := g.Intn(3) > 0
+	if gated {
+		// the listener goroutine stays inside this conn's add path until the release
+		g.P("O conn gate=1")
+	} else if g.Intn(2) == 0 {
+		g.P("O late")
+	}
+	if g.Intn(2) == 0 {
+		g.P("O shutdown")
+	} else {
+		g.P("O stop")
+	}
+	if gated {
+		if g.Intn(4) == 0 {
+			g.P("Q")
+		}
+		g.P("O release")
+	}
+	g.P("O wait")
+}
+
 func gen(g *lp.Gen) {
 	for i := 0; i < g.N; i++ {
+		if i%10 == 7 {
+			genLmux(g, i)
+			continue
+		}
+		if i%10 == 2 {
+			genHsim(g, i)
+			continue
+		}
 		if i%5 == 4 {
 			genReal(g, i)
 		} else {
@@ -876,6 +955,425 @@ func runReal(e *lp.Exec, head string, ops []string) {
 	e.Count("real", r.kind+"-"+mode+"-"+iomod)
 }
 
+// ---------------------------------------------------------------------------------- lmux executor
+
+func runLmux(e *lp.Exec, head string, ops []string) {
+	ws := strings.Fields(head)
+	maxa := atoi(field(ws, "maxa"))
+	e.P("> %s", head)
+	e.P("ok")
+	runtime.GC()
+	time.Sleep(10 * time.Millisecond)
+	g0 := runtime.NumGoroutine()
+	fd0, fdn0 := countFDs()
+	ln, err := net.Listen("tcp", "127.0.0.1:0")
+	if err != nil {
+		panic(err)
+	}
+	lm := lmux.New(maxa)
+	la, lb := lm.Mux(ln)
+	lm.Start()
+	var clients, handed []net.Conn
+	ha, hb, decs := 0, 0, 0
+	stopped := false
+	// a consumer = one goroutine in ChanListener.Accept; one that found nothing stays blocked there (as nbhttp's
+	// listener goroutines do) and gets the next event of its listener
+	type res struct {
+		c   net.Conn
+		err error
+	}
+	type consumer struct {
+		l       *lmux.ChanListener
+		ch      chan res
+		waiting bool
+		isA     bool
+	}
+	ca := &consumer{l: la, ch: make(chan res, 1), isA: true}
+	cb := &consumer{l: lb, ch: make(chan res, 1)}
+	relA, relB := "", "" // what consumers that were blocked got during this op: " ra=<…>" / " rb=<…>"
+	classify := func(k *consumer, r res) string {
+		switch {
+		case r.c != nil:
+			handed = append(handed, r.c)
+			if k.isA {
+				ha++
+			} else {
+				hb++
+			}
+			return "conn"
+		case r.err == net.ErrClosed: // the chClose case of the select (the real listener's error is an *OpError)
+			return "closed"
+		default:
+			return "err"
+		}
+	}
+	poll := func() {
+		for _, k := range []*consumer{ca, cb} {
+			if !k.waiting {
+				continue
+			}
+			select {
+			case r := <-k.ch:
+				k.waiting = false
+				if k.isA {
+					relA = " ra=" + classify(k, r)
+				} else {
+					relB = " rb=" + classify(k, r)
+				}
+			default:
+			}
+		}
+	}
+	b2i := func(b bool) int {
+		if b {
+			return 1
+		}
+		return 0
+	}
+	state := func() string {
+		poll()
+		return fmt.Sprintf("qa=%d qb=%d online=%d ha=%d hb=%d wa=%d wb=%d", la.VerifQueued(), lb.VerifQueued(), lm.VerifOnlineA(), ha, hb, b2i(ca.waiting), b2i(cb.waiting))
+	}
+	settle := func() string {
+		last, same := "", 0
+		waitFor(func() bool {
+			cur := state()
+			if cur == last {
+				same++
+			} else {
+				last, same = cur, 0
+			}
+			return same >= 6
+		}, time.Second)
+		return last
+	}
+	take := func(k *consumer) string {
+		if k.waiting { // still in its Accept
+			return "blocked"
+		}
+		go func() { c, err := k.l.Accept(); k.ch <- res{c, err} }()
+		select {
+		case r := <-k.ch:
+			return classify(k, r)
+		case <-time.After(150 * time.Millisecond):
+			k.waiting = true
+			return "blocked"
+		}
+	}
+	shape := "lmux" + field(ws, "maxa")
+	for _, ln2 := range ops {
+		ow := strings.Fields(ln2)
+		extra := ""
+		relA, relB = "", ""
+		switch {
+		case ow[0] == "Q":
+		case ow[1] == "dial":
+			before := la.VerifQueued() + lb.VerifQueued() + ha + hb
+			c, err := net.DialTimeout("tcp", ln.Addr().String(), 2*time.Second)
+			if err == nil {
+				clients = append(clients, c)
+				waitFor(func() bool { poll(); return la.VerifQueued()+lb.VerifQueued()+ha+hb > before }, time.Second)
+			}
+		case ow[1] == "takeA" || ow[1] == "takeB":
+			k := ca
+			if ow[1] == "takeB" {
+				k = cb
+			}
+			extra = " got=" + take(k)
+		case ow[1] == "dec":
+			// the contract of Decrease: once per conn that A handed out, when that conn ends
+			if decs < ha {
+				decs++
+				la.Decrease()
+			}
+		case ow[1] == "stop":
+			if !stopped {
+				stopped = true
+				lm.Stop()
+			}
+		}
+		st := settle()
+		var keep []string
+		for _, w := range ow {
+			if !strings.HasPrefix(w, "got=") {
+				keep = append(keep, w)
+			}
+		}
+		e.P("> %s%s", strings.Join(keep, " "), extra)
+		e.P("R %s%s%s%s", st, extra, relA, relB)
+		shape += "|" + ow[len(ow)-1][:1] + extra + relA + relB
+	}
+	if stopped && (ca.waiting || cb.waiting) {
+		e.Oracle("c18-hang", "class=unexplained lmux: a consumer is still blocked in ChanListener.Accept after ListenerMux.Stop (A: %v, B: %v)", ca.waiting, cb.waiting)
+	}
+	// ---- oracles: after Stop every conn the mux accepted has been handed to a consumer or is closed
+	if stopped {
+		for _, c := range handed {
+			_ = c.Close()
+		}
+		open := 0
+		for _, c := range clients {
+			_ = c.SetReadDeadline(time.Now().Add(300 * time.Millisecond))
+			buf := make([]byte, 1)
+			_, err := c.Read(buf)
+			if ne, ok := err.(net.Error); ok && ne.Timeout() {
+				open++
+			}
+		}
+		if open > 0 {
+			e.Oracle("c18-close-count", "lmux: %d of %d connections the mux accepted were neither handed to a listener nor closed by ListenerMux.Stop (queued in the channel listeners: qa=%d qb=%d)", open, len(clients), la.VerifQueued(), lb.VerifQueued())
+		}
+	}
+	for _, c := range clients {
+		_ = c.Close()
+	}
+	if !stopped {
+		lm.Stop()
+	}
+	if ok := waitFor(func() bool { runtime.Gosched(); return runtime.NumGoroutine() <= g0 }, 3*time.Second); !ok && stopped {
+		buf := make([]byte, 1<<16)
+		buf = buf[:runtime.Stack(buf, true)]
+		e.Oracle("c18-goroutines", "lmux: before start %d, after stop %d; %s", g0, runtime.NumGoroutine(), summarizeStacks(string(buf)))
+	}
+	runtime.GC()
+	if okf := waitFor(func() bool { n, _ := countFDs(); return n <= fd0 }, 2*time.Second); !okf && stopped {
+		n, names := countFDs()
+		e.Oracle("c18-fds", "lmux: before start %d, after stop %d; new: %s", fd0, n, strings.Join(diffNames(fdn0, names), ","))
+	}
+	e.Key(shape, len(clients) > 0)
+	e.Count("lmux", "cases")
+}
+
+// gateListener lets the harness decide when Accept returns: a conn accepted while `late` is armed is handed to the
+// engine only once Close has been called on the listener, that is after the engine has set its shutdown flag —
+// the schedule "Accept returns a conn just before the listener is closed".
+type gateListener struct {
+	net.Listener
+	late    int32
+	closing chan struct{}
+	once    sync.Once
+	lateN   int32
+}
+
+func (l *gateListener) Accept() (net.Conn, error) {
+	c, err := l.Listener.Accept()
+	if err == nil && atomic.LoadInt32(&l.late) == 1 {
+		atomic.AddInt32(&l.lateN, 1)
+		<-l.closing
+	}
+	return c, err
+}
+
+func (l *gateListener) Close() error {
+	l.once.Do(func() { close(l.closing) })
+	if atomic.LoadInt32(&l.lateN) > 0 {
+		time.Sleep(20 * time.Millisecond) // let the held Accept return first
+	}
+	return l.Listener.Close()
+}
+
+// runHsim: a real nbhttp engine, real loopback conns, a gate inside the engine's OnOpen handler (which the engine
+// calls between the insert into engine.conns and the rest of the conn's add path) and a gate in the listener.
+//
+//	C <id> hsim io=<nb|blk>
+//	O conn gate=<0|1> | release | peerclose <i> | late | stop | shutdown | wait | Q
+//	R online=<len(engine.conns)> opens=<n> closes=<n> ret=<none|nil|ctx|hang>[ leak=<n>]
+func runHsim(e *lp.Exec, head string, ops []string) {
+	ws := strings.Fields(head)
+	e.P("> %s", head)
+	e.P("ok")
+	vsys.VirtualAll = false
+	runtime.GC()
+	time.Sleep(20 * time.Millisecond)
+	g0 := runtime.NumGoroutine()
+	fd0, fdn0 := countFDs()
+	im := nbhttp.IOModNonBlocking
+	if field(ws, "io") == "blk" {
+		im = nbhttp.IOModBlocking
+	}
+	var gl *gateListener
+	mux := http.NewServeMux()
+	mux.HandleFunc("/", func(w http.ResponseWriter, q *http.Request) { _, _ = w.Write([]byte("ok")) })
+	he := nbhttp.NewEngine(nbhttp.Config{Network: "tcp", Addrs: []string{"127.0.0.1:0"}, NPoller: 1, Handler: mux, IOMod: im, MessageHandlerPoolSize: 16,
+		Listen: func(network, addr string) (net.Listener, error) {
+			ln, err := net.Listen(network, addr)
+			if err != nil {
+				return nil, err
+			}
+			gl = &gateListener{Listener: ln, closing: make(chan struct{})}
+			return gl, nil
+		}})
+	var opens, closes, gateNext int32
+	gate := make(chan struct{})
+	he.OnOpen(func(c net.Conn) {
+		if atomic.CompareAndSwapInt32(&gateNext, 1, 2) {
+			<-gate
+		}
+		atomic.AddInt32(&opens, 1) // counted when the handler returns
+	})
+	he.OnClose(func(c net.Conn, err error) { atomic.AddInt32(&closes, 1) })
+	if err := he.Start(); err != nil {
+		panic(err)
+	}
+	addr := he.Addrs[0]
+	var clients []net.Conn
+	var lateClients []net.Conn
+	ret := "none"
+	var retMu sync.Mutex
+	done := make(chan struct{})
+	stopping, graceful, gated := false, false, false
+	const ctxTimeout = 4 * time.Second
+	state := func() string {
+		retMu.Lock()
+		defer retMu.Unlock()
+		return fmt.Sprintf("online=%d opens=%d closes=%d ret=%s", he.Online(), atomic.LoadInt32(&opens), atomic.LoadInt32(&closes), ret)
+	}
+	settle := func() string {
+		// while a Shutdown is polling (every 200 ms) a quiet state needs more than two ticks to be believed
+		quiet := 60 * time.Millisecond
+		retMu.Lock()
+		if stopping && graceful && ret == "none" {
+			quiet = 650 * time.Millisecond
+		}
+		retMu.Unlock()
+		last, since := "", time.Now()
+		waitFor(func() bool {
+			cur := state()
+			if cur != last {
+				last, since = cur, time.Now()
+			}
+			return time.Since(since) >= quiet
+		}, 3*time.Second)
+		return last
+	}
+	shape := "hsim" + field(ws, "io")
+	for _, ln2 := range ops {
+		ow := strings.Fields(ln2)
+		extra := ""
+		switch {
+		case ow[0] == "Q":
+		case ow[1] == "conn":
+			if field(ow, "gate") == "1" {
+				atomic.StoreInt32(&gateNext, 1)
+				gated = true
+			}
+			before := he.Online()
+			c, err := net.DialTimeout("tcp", addr, 2*time.Second)
+			if err != nil {
+				panic(err)
+			}
+			clients = append(clients, c)
+			waitFor(func() bool { return he.Online() > before }, 2*time.Second)
+		case ow[1] == "release":
+			if gated {
+				gated = false
+				close(gate)
+			}
+		case ow[1] == "peerclose":
+			if i := atoi(ow[2]); i < len(clients) {
+				_ = clients[i].Close()
+			}
+		case ow[1] == "late":
+			atomic.StoreInt32(&gl.late, 1)
+			c, err := net.DialTimeout("tcp", addr, 2*time.Second)
+			if err != nil {
+				panic(err)
+			}
+			lateClients = append(lateClients, c)
+			waitFor(func() bool { return atomic.LoadInt32(&gl.lateN) > 0 }, 2*time.Second)
+		case ow[1] == "stop" || ow[1] == "shutdown":
+			stopping, graceful = true, ow[1] == "shutdown"
+			go func(gr bool) {
+				r := "nil"
+				if gr {
+					ctx, cancel := context.WithTimeout(context.Background(), ctxTimeout)
+					if err := he.Shutdown(ctx); err != nil {
+						r = "ctx"
+					}
+					cancel()
+				} else {
+					he.Stop()
+				}
+				retMu.Lock()
+				ret = r
+				retMu.Unlock()
+				close(done)
+			}(graceful)
+		case ow[1] == "wait":
+			if !stopping {
+				break
+			}
+			select {
+			case <-done:
+			case <-time.After(ctxTimeout + 4*time.Second):
+				retMu.Lock()
+				ret = "hang"
+				retMu.Unlock()
+			}
+			st := settle()
+			leak := 0
+			for _, c := range lateClients {
+				_ = c.SetReadDeadline(time.Now().Add(300 * time.Millisecond))
+				_, err := c.Read(make([]byte, 1))
+				if ne, ok := err.(net.Error); ok && ne.Timeout() {
+					leak++
+				}
+			}
+			if leak > 0 {
+				e.Oracle("c18-fds", "nbhttp: %d connection(s) that Accept returned while the engine was shutting down were dropped without being closed (the peer still sees them open after Stop returned)", leak)
+			}
+			extra = fmt.Sprintf(" leak=%d", leak)
+			retMu.Lock()
+			r := ret
+			retMu.Unlock()
+			if r != "nil" && !gated {
+				e.Oracle("c18-hang", "class=unexplained nbhttp %s did not return nil (ret=%s) although every connection was closed and no handler was blocked: %s", map[bool]string{true: "Shutdown with a live context", false: "Stop"}[graceful], r, st)
+			}
+			if r == "nil" && he.Online() != 0 {
+				e.Oracle("c18-close-count", "nbhttp: %d entries left in engine.conns after %s returned nil", he.Online(), ow[1])
+			}
+		}
+		st := settle()
+		e.P("> %s", ln2)
+		e.P("R %s%s", st, extra)
+		shape += "|" + ow[len(ow)-1][:1] + "/" + st
+	}
+	if gated {
+		close(gate)
+	}
+	if !stopping {
+		he.Stop()
+	} else {
+		select {
+		case <-done:
+		case <-time.After(ctxTimeout + 4*time.Second):
+		}
+	}
+	for _, c := range clients {
+		_ = c.Close()
+	}
+	for _, c := range lateClients {
+		_ = c.Close()
+	}
+	retMu.Lock()
+	r := ret
+	retMu.Unlock()
+	if r == "nil" || !stopping {
+		if ok := waitFor(func() bool { runtime.Gosched(); return runtime.NumGoroutine() <= g0 }, 3*time.Second); !ok {
+			buf := make([]byte, 1<<16)
+			buf = buf[:runtime.Stack(buf, true)]
+			e.Oracle("c18-goroutines", "nbhttp hsim: before start %d, after stop %d; %s", g0, runtime.NumGoroutine(), summarizeStacks(string(buf)))
+		}
+		runtime.GC()
+		if okf := waitFor(func() bool { n, _ := countFDs(); return n <= fd0 }, 2*time.Second); !okf {
+			n, names := countFDs()
+			e.Oracle("c18-fds", "nbhttp hsim: before start %d, after stop %d; new: %s", fd0, n, strings.Join(diffNames(fdn0, names), ","))
+		}
+	}
+	e.Key(shape, len(clients)+len(lateClients) > 0)
+	e.Count("hsim", "cases")
+}
+
 func diffNames(a, b []string) []string {
 	m := map[string]int{}
 	for _, x := range a {
@@ -941,6 +1439,10 @@ func exec(e *lp.Exec) {
 		}
 		if strings.Contains(head, " sim") {
 			runSim(e, head, ops)
+		} else if strings.Contains(head, " hsim") {
+			runHsim(e, head, ops)
+		} else if strings.Contains(head, " lmux") {
+			runLmux(e, head, ops)
 		} else {
 			runReal(e, head, ops)
 		}
